@@ -22,7 +22,8 @@ class Harness:
         for f in files:
             self.ip.load(os.path.join(REPO, "src", f))
         self.sc = Scope(None)
-        self.obl = []          # (guard∧¬cond, msg)
+        self.obl = []          # (guard∧¬cond, msg, tag)
+        self.tag = ""          # current split tag (e.g. the step): one SMT query per (msg, tag)
         self.inputs = {}       # name -> z3 const (for decoding models)
         self.covers = []       # (cond, msg)
         self.t0 = time.time()
@@ -65,7 +66,7 @@ class Harness:
         bad = band(self.ip.g, bnot(cond))
         if bad is False:
             return
-        self.obl.append((bad, msg))
+        self.obl.append((bad, msg, str(self.tag)))
 
     def cover(self, cond, msg):
         self.covers.append((band(self.ip.g, cond), msg))
@@ -138,9 +139,9 @@ class Harness:
         groups = {}
         lst = list(self.obl)
         if panics_are_violations:
-            lst += [(c, "panic: " + m) for c, m in ip.panics]
-        for c, msg in lst:
-            groups.setdefault(msg, []).append(c)
+            lst += [(c, "panic: " + m, "") for c, m in ip.panics]
+        for c, msg, tag in lst:
+            groups.setdefault(msg + ("  @" + tag if tag else ""), []).append(c)
         qs = []
         for i, (c, msg) in enumerate(ip.bounds):
             qs.append(("bound#%d: %s" % (i, msg), c))
@@ -156,7 +157,7 @@ class Harness:
                     out["inconclusive"].append("bound reachable (%s): %s" % (r, name))
             elif name.startswith("prop: "):
                 if r == "sat":
-                    out["violations"].append((name[6:], m))
+                    out["violations"].append((name[6:].split("  @")[0], m))
                 elif r != "unsat":
                     out["inconclusive"].append("solver said %s on: %s" % (r, name[6:]))
             else:
